@@ -59,6 +59,17 @@ func SetDebugLogger(logger *log.Logger) {
 
 func RegisterCustomFunctions(customFunctionInfoTbl []CustomFunctionInfo) {
 
+	// Expressions may be compiled (functions looked up) at the same time
+	mu.Lock()
+	defer mu.Unlock()
+
+	registerCustomFunctions(customFunctionInfoTbl)
+}
+
+// registerCustomFunctions - as above, for callers that hold the lock of the
+// function table.
+func registerCustomFunctions(customFunctionInfoTbl []CustomFunctionInfo) {
+
 	pluginsLoaded = true
 
 	for _, regInfo := range customFunctionInfoTbl {
